@@ -70,6 +70,7 @@ class Mini:
         # lenient: a statement whose value lies outside the fragment binds an opaque stand-in instead of aborting (for
         # evaluating one attribute of a constructor that also sets up unrelated state)
         self.lenient = lenient
+        self.selfattrs: dict = {}  # attributes of `self` assigned by the evaluated code (shared across helper calls)
         """atoms: normalised expression text -> concrete value (e.g. 'self.min_target_temperature' -> 16)."""
         self.repo, self.module, self.atoms, self.cls = repo, module, atoms or {}, cls
         self.depth = 0
@@ -79,8 +80,10 @@ class Mini:
         t = norm_text(e)
         if t in self.atoms:
             return self.atoms[t]
+        if isinstance(e, ast.Attribute) and t in self.selfattrs:
+            return self.selfattrs[t]  # an attribute assigned earlier in the evaluated code (self.x = ...)
         if isinstance(e, ast.Attribute) and t in env:
-            return env[t]  # an attribute assigned earlier in the evaluated code (self.x = ...)
+            return env[t]
         if isinstance(e, ast.Constant):
             return e.value
         if isinstance(e, ast.Name):
@@ -231,6 +234,17 @@ class Mini:
                 return _FUN[d](*[self.ev(a, env) for a in e.args])
             if d in _FUN and d == "round" and all(k.arg == "ndigits" for k in e.keywords):
                 return round(*[self.ev(a, env) for a in e.args], **{k.arg: self.ev(k.value, env) for k in e.keywords})
+            ci = self.repo.resolve_class(self.module, e.func) if d else None
+            if ci is not None and ci.is_dataclass and not ci.is_enum():
+                names = [n for n, _, _ in ci.fields]
+                fields = {}
+                for i, a in enumerate(e.args):
+                    if i < len(names):
+                        fields[names[i]] = self.ev(a, env)
+                for k in e.keywords:
+                    if k.arg:
+                        fields[k.arg] = self.ev(k.value, env)
+                return FakeObj(ci.name, **fields)
             # helper of the same module / class: evaluate its body
             fn = None
             if isinstance(e.func, ast.Name) and e.func.id in self.module.functions:
@@ -311,9 +325,14 @@ class Mini:
                     if isinstance(t, ast.Attribute) and norm_text(t) in self.atoms:
                         self.atoms[norm_text(t)] = v  # state named as an atom is rebound
                     elif isinstance(t, ast.Attribute) and isinstance(t.value, ast.Name) and t.value.id == "self":
+                        self.selfattrs[norm_text(t)] = v
                         env[norm_text(t)] = v
                     else:
                         self._bind(t, v, env)
+                continue
+            if isinstance(s, ast.AugAssign) and isinstance(s.target, ast.Attribute) and norm_text(s.target) in self.selfattrs and type(s.op) in _BIN:
+                k = norm_text(s.target)
+                self.selfattrs[k] = _BIN[type(s.op)](self.selfattrs[k], self.ev(s.value, env))
                 continue
             if isinstance(s, ast.AugAssign) and isinstance(s.target, ast.Name) and type(s.op) in _BIN:
                 cur = env[s.target.id] if s.target.id in env else self.ev(s.target, env)
